@@ -425,6 +425,16 @@ impl<'a> BodyGen<'a> {
                     self.emit_table_op(e, depth);
                 }
             }
+            8 if self.rng.chance(1, 4) => {
+                // loop with a result (never taken again: the value falls out of its end)
+                let bt = self.block_type(&[], &[t]);
+                self.code.loop_(&bt);
+                self.labels.push(Label { tys: vec![], is_loop: true });
+                self.stmts(depth + 1, 1);
+                self.expr(t, depth + 1);
+                self.labels.pop();
+                self.code.end_();
+            }
             8 => {
                 // block with a result, possibly left early through br / br_if
                 let bt = self.block_type(&[], &[t]);
@@ -746,8 +756,13 @@ impl<'a> BodyGen<'a> {
                 }
                 self.code.if_(&BT::Empty);
                 self.labels.push(Label { tys: vec![], is_loop: false });
-                self.code.block(&BT::Empty);
-                self.labels.push(Label { tys: vec![], is_loop: false });
+                // a third of the time the terminator sits directly in the then arm, which then ends in dead code,
+                // and a live else arm follows
+                let wrap = !self.rng.chance(1, 3);
+                if wrap {
+                    self.code.block(&BT::Empty);
+                    self.labels.push(Label { tys: vec![], is_loop: false });
+                }
                 self.stmts(depth + 1, 2);
                 // choose a branch target that is not a loop
                 let targets: Vec<usize> = (0..self.labels.len()).filter(|i| !self.labels[*i].is_loop).collect();
@@ -781,8 +796,13 @@ impl<'a> BodyGen<'a> {
                 for _ in 0..nj {
                     self.junk(depth);
                 }
-                self.labels.pop();
-                self.code.end_();
+                if wrap {
+                    self.labels.pop();
+                    self.code.end_();
+                } else if self.rng.chance(2, 3) {
+                    self.code.else_();
+                    self.stmts(depth + 1, 2);
+                }
                 self.labels.pop();
                 self.code.end_();
             }
@@ -928,6 +948,22 @@ impl<'a> BodyGen<'a> {
                 }
                 self.labels.pop();
                 self.code.end_();
+            }
+            15 if self.cfg.feats.multivalue && self.rng.chance(1, 4) => {
+                // an empty block or loop whose type passes its parameters through: the type index is all it has
+                let (t, u) = (*self.rng.pick(&NUM_TYPES), *self.rng.pick(&NUM_TYPES));
+                let tys = if self.rng.bool() { vec![t, u] } else { vec![t] };
+                let bt = self.block_type(&tys, &tys);
+                self.exprs(&tys, depth + 1);
+                if self.rng.bool() {
+                    self.code.block(&bt);
+                } else {
+                    self.code.loop_(&bt);
+                }
+                self.code.end_();
+                for _ in &tys {
+                    self.code.drop_();
+                }
             }
             15 if self.cfg.feats.multivalue => {
                 // loop/block with parameters
@@ -1474,6 +1510,16 @@ pub fn gen_names(m: &MSpec, rng: &mut Rng) -> NameSpec {
         if rng.chance(1, 12) && np + nl > 0 {
             // the style of old wat2wasm output: an entry for every local, all names empty
             v = (0..(np + nl)).map(|li| (li, String::new())).collect();
+        }
+        if rng.chance(1, 8) && np + nl > 1 {
+            // the style of wat2wasm output for partly named functions: an entry for every local, the unnamed
+            // ones with an empty name, in front of and between the named ones
+            let named: std::collections::HashMap<u32, String> = v.iter().cloned().collect();
+            v = (0..(np + nl)).map(|li| (li, named.get(&li).cloned().unwrap_or_default())).collect();
+            if v.iter().all(|(_, s)| s.is_empty()) {
+                let last = v.len() - 1;
+                v[last].1 = format!("$l_{}_{}", fi, last);
+            }
         }
         if !v.is_empty() {
             n.locals.push((fi, v));
